@@ -127,6 +127,7 @@ FLOORS = {'hist': 0.7, 'nt': 0.09, 'nt:corrupt': 0.06, 'nt:oserr': 0.02, 'nt:mis
 STATUSES = ['WAITING', 'PENDING', 'DONE', 'FAILED', 'SKIPPED']
 FNAMES = ['valjean.env', 'valjean.env', 'env.pickle', 'e']
 UNKNOWN = 'never-seen-task'          # longer than any generated name
+LONG_UNKNOWN = 'run.' + 'sigma=0.00012345,' * 20      # 344 bytes
 # non-pickle contents: the first byte of each is not a pickle opcode (checked in setup())
 FOREIGN = [b'\n', b'{"status": "DONE"}\n', b'# valjean environment\n', b'\xff\xfe\x00\x00', b'<env/>\n']
 CORRUPT_KINDS = ('empty', 'trunc', 'nulpad', 'torn', 'foreign')
@@ -243,7 +244,8 @@ _RFAULT = st.fixed_dictionaries({'i': _IDX, 'after': _AFTER,
                                  'kind': st.sampled_from(['eio_read', 'eio_read', 'eio_open',
                                                           'eacces_open'])})
 _READ_FIELDS = {'op': st.just('read'), 'sel': st.sampled_from(['all', 'all', 'mask']),
-                'mask': st.integers(1, 63), 'rev': st.booleans(), 'extra': st.booleans()}
+                'mask': st.integers(1, 63), 'rev': st.booleans(),
+                'extra': st.sampled_from([False, False, True, True, 'long'])}
 _OPS = {
     'write': st.just({'op': 'write'}),
     'wfault': _OP_WFAULT,
@@ -729,7 +731,12 @@ def _names_of(world, oper):
             world.labels.add('read:subset')
     if oper.get('rev'):
         names.reverse()
-    if oper.get('extra'):
+    if oper.get('extra') == 'long':
+        # a task of the job that never ran and whose (generated) name is longer than a file name
+        # may be: there is nothing to read for it, which is not an error
+        names.append(LONG_UNKNOWN)
+        world.labels.add('read:unknown-name-longer-than-NAME_MAX')
+    elif oper.get('extra'):
         names.append(UNKNOWN)
         world.labels.add('read:unknown-name')
     return names
